@@ -13,6 +13,7 @@
 
 #include "SQuIDS/detail/MatrixExp.h"
 #include "SQuIDS/detail/ProxyFwd.h"
+#include "SQuIDS/detail/Verif.h"
 
 namespace squids{
 
@@ -812,6 +813,7 @@ void matrix_exponential(gsl_matrix_complex* eA, const gsl_matrix_complex *A){
     gsl_matrix_complex_set_all(eA,GSL_COMPLEX_ZERO);
     for(unsigned int i = 0; i<A->size1; i++)
       gsl_matrix_complex_set(eA,i,i,gsl_complex_exp(gsl_matrix_complex_get(A,i,i)));
+    SQUIDS_VERIF_EVENT("expm.branch",0,0,0,0);
     return; //done!
   }
   
@@ -832,6 +834,7 @@ void matrix_exponential(gsl_matrix_complex* eA, const gsl_matrix_complex *A){
   double d6 = pow(one_normest_matrix_power(A2,3),1./6.);
   double eta_1 = std::max(pow(one_normest_matrix_power(A2,2),1./4.),d6);
   if (eta_1 < 1.495585217958292e-002 and ell(A, 3) == 0){
+    SQUIDS_VERIF_EVENT("expm.branch",0,0,3,0);
     pade3(A,id,A2,U,V);
     solve_P_Q(U,V,eA);
     return;
@@ -843,6 +846,7 @@ void matrix_exponential(gsl_matrix_complex* eA, const gsl_matrix_complex *A){
   double d4 = pow(exact_1_norm(A4),1./4.);
   double eta_2 = std::max(d4,d6);
   if (eta_2 < 2.539398330063230e-001 and ell(A, 5) == 0){
+    SQUIDS_VERIF_EVENT("expm.branch",0,0,5,0);
     pade5(A,id,A2,A4,U,V);
     solve_P_Q(U,V,eA);
     return;
@@ -857,6 +861,7 @@ void matrix_exponential(gsl_matrix_complex* eA, const gsl_matrix_complex *A){
   double eta_3 = std::max(d6,d8);
 
   if( eta_3 < 9.504178996162932e-001 and ell(A, 7) == 0 ){
+    SQUIDS_VERIF_EVENT("expm.branch",0,0,7,0);
     pade7(A,id,A2,A4,A6,U,V);
     solve_P_Q(U,V,eA);
     // free allocated matrices
@@ -864,6 +869,7 @@ void matrix_exponential(gsl_matrix_complex* eA, const gsl_matrix_complex *A){
   }
 
   if( eta_3 < 2.097847961257068e+000 and ell(A, 9) == 0 ){
+    SQUIDS_VERIF_EVENT("expm.branch",0,0,9,0);
     pade9(A,id,A2,A4,A6,U,V);
     solve_P_Q(U,V,eA);
     // free allocated matrices
@@ -903,6 +909,7 @@ void matrix_exponential(gsl_matrix_complex* eA, const gsl_matrix_complex *A){
   gsl_matrix_complex_print(A6);
   */
 
+  SQUIDS_VERIF_EVENT("expm.branch",0,0,13,s);
   pade13(B,id,A2,A4,A6,U,V);
   /*
   std::cout << "U" << std::endl;
